@@ -50,18 +50,6 @@ func expectedRuns(src []eng.Hook, ev string) []eng.Hook {
 	return out
 }
 
-func ledgerSame(a, b []eng.LedgerRow) bool {
-	if len(a) != len(b) {
-		return false
-	}
-	for i := range a {
-		if a[i].Rev != b[i].Rev || a[i].Status != b[i].Status {
-			return false
-		}
-	}
-	return true
-}
-
 // hookSource: the hooks the operation is to run, in the order Helm stored them
 func hookSource(op *eng.Op, so eng.StepObs, prev []eng.LedgerRow) []eng.Hook {
 	switch op.Kind {
